@@ -773,3 +773,20 @@ def visitor_adv(tier, seed, ci, nc):
 
 PREFORK = {'visitor_corpus': _corpus_prefork}
 STREAMS.update({'visitor_corpus': visitor_corpus, 'visitor_adv': visitor_adv})
+
+
+def programs(tier, seed, ci, nc, count=3000, ops=('render', 'pvisit', 'ptruth', 'pauto'), routes=None):
+    """random programs of the forwarding grammar; each yields one request per op"""
+    from . import progs
+    rng = _rng(seed, 'programs', ci)
+    for _ in range(count // nc):
+        p = progs.rand_prog(rng)
+        if routes and p['route'] not in routes:
+            continue
+        for op in ops:
+            if op == 'pauto' and p['route'] in ('self', 'param'):
+                continue       # these routes need bound arguments: checked on the real side only (rt:progexec)
+            yield (op, p)
+
+
+STREAMS['programs'] = programs
